@@ -188,6 +188,18 @@ class PathResult:
                 return True
         return self.end == "return" and last == "Some"
 
+    def assumed_bool(self, text):
+        """What the path assumed about a boolean value (given by its canonical text, e.g. «loop:flag»): True / False / None — whether
+        the source tested it (`if x`, `!x`), compared it, or matched it against the literal patterns `true` / `false`."""
+        v = self.assume.get(text)
+        if isinstance(v, bool):
+            return v
+        for lit, pol in (("true", True), ("false", False)):
+            w = self.assume.get("eq:%s:%s" % (text, lit))
+            if isinstance(w, bool):
+                return pol if w else (not pol)
+        return None
+
     def assigns(self, name=None):
         return [e for e in self.trace if e[0] == "assign" and (name is None or e[1] == name)]
 
